@@ -2094,6 +2094,10 @@ func (stmt *UpdateStmt) execAt(ctx context.Context, tx *SQLTx, params map[string
 		return nil, err
 	}
 
+	// a row whose index entry this statement moves ahead of the scan position is met
+	// again by the scan: every row is updated (and counted) once
+	updatedPKs := make(map[string]struct{})
+
 	for {
 		row, err := rowReader.Read(ctx)
 		if errors.Is(err, ErrNoMoreRows) {
@@ -2152,6 +2156,11 @@ func (stmt *UpdateStmt) execAt(ctx context.Context, tx *SQLTx, params map[string
 		if err != nil {
 			return nil, err
 		}
+
+		if _, again := updatedPKs[string(pkEncVals)]; again {
+			continue
+		}
+		updatedPKs[string(pkEncVals)] = struct{}{}
 
 		// primary index entry
 		mkey := MapKey(tx.sqlPrefix(), MappedPrefix, EncodeID(table.id), EncodeID(table.primaryIndex.id), pkEncVals, pkEncVals)
